@@ -2,7 +2,7 @@
 Theorems: coq/Properties_C04_calc.v (Calc model: all expressions, all scripts, all stop positions).
 Tie: K2 (generated expressions x scripts with the external stop at a random position / before start;
 leaves log the instant they see stop; the root receiver's token counts live callback registrations)."""
-import k2
+import k2, k2v2
 LEVEL = "proof"
 def run(chk, replay=None):
     chk.cov["trusted_base"] = [
@@ -14,3 +14,4 @@ def run(chk, replay=None):
     chk.cov["rule"] = "K2: generated expressions x scripts; non-trivial = script contains a stop or starts pre-stopped, or a non-value outcome"
     chk.prove()
     k2.standard_k2(chk)
+    k2v2.standard_k2v2(chk)   # second-generation model Calc2 (lifetimes, contexts, more algorithms): tie (theorems: Properties_*_calc2.v)
